@@ -261,10 +261,27 @@ func ruleJSON3(c *Ctx) {
 	c.check(onlyEq && sameSet(chars, want), "number/float-flag", sw, "a number is typed float iff it contains '.', 'e' or 'E'", fmt.Sprintf("float flag condition is %s (expected exactly c == '.' || c == 'e' || c == 'E')", w.Src(cond)))
 	// literal(): isFloat → ParseFloat → Float; else ParseInt(…, 10, 64) → Int
 	var probs []string
+	// the flag: the variable assigned from scanWhile(…) in literal()
+	var flagObj types.Object
+	ast.Inspect(lit.Body, func(n ast.Node) bool {
+		as, ok := n.(*ast.AssignStmt)
+		if !ok || len(as.Lhs) != 1 || len(as.Rhs) != 1 {
+			return true
+		}
+		if call, ok := as.Rhs[0].(*ast.CallExpr); ok && Callee(p, call) != nil && Callee(p, call).Name() == "scanWhile" {
+			if id, ok := as.Lhs[0].(*ast.Ident); ok {
+				flagObj = p.TypesInfo.ObjectOf(id)
+			}
+		}
+		return true
+	})
 	var ifFloat *ast.IfStmt
 	ast.Inspect(lit.Body, func(n ast.Node) bool {
 		is, ok := n.(*ast.IfStmt)
-		if ok && w.Src(is.Cond) == "isFloat" {
+		if !ok {
+			return true
+		}
+		if id, isId := ast.Unparen(is.Cond).(*ast.Ident); isId && flagObj != nil && p.TypesInfo.Uses[id] == flagObj {
 			ifFloat = is
 		}
 		return true
@@ -338,14 +355,7 @@ func ruleJSON3(c *Ctx) {
 		probs = append(probs, "the range error of strconv.ParseInt is discarded: an integer literal beyond int64 (e.g. the encoding of the float 1e20) is clamped to MaxInt64 instead of staying a float")
 	}
 	// isFloat comes from scanWhile over the literal
-	fromScan := containsNode(lit.Body, func(n ast.Node) bool {
-		as, ok := n.(*ast.AssignStmt)
-		if !ok || len(as.Lhs) != 1 || w.Src(as.Lhs[0]) != "isFloat" {
-			return false
-		}
-		call, ok := as.Rhs[0].(*ast.CallExpr)
-		return ok && Callee(p, call) != nil && Callee(p, call).Name() == "scanWhile"
-	})
+	fromScan := flagObj != nil
 	if !fromScan {
 		probs = append(probs, "isFloat is not the flag returned by scanWhile for this literal")
 	}
@@ -833,7 +843,7 @@ var jsonPorts = map[string]struct {
 	"scanner.popParseState":  {},
 	"decodeState.scanNext":   {},
 	"decodeState.readIndex":  {},
-	"unquoteBytes": {[]string{"utf16.DecodeRune(rr, rr1)", "dec != unicode.ReplacementChar"}, []string{"DecodeRune"},
+	"unquoteBytes": {[]string{"call (DecodeRune ()", "ReplacementChar ()"}, []string{"DecodeRune"},
 		"the surrogate-pair test is written as a separate statement"},
 }
 
